@@ -12,7 +12,7 @@ GEN = [("GenPipe.v", "pipe", ["internal/pipe/pipe.go"])]
 GEN_DEPS = ["GenPipe.v"]
 TARGETS_CHECK = ["theories/Check/C20o.vo", "theories/Check/C20.vo"]
 TARGETS_PROP = ["theories/Properties/C20.vo"]
-RULE = ("for every N=2..20 and each of three families of pairwise non-commuting functions (affine 2x+i, "
+RULE = ("for every N=2..20 and each of the families of pairwise non-commuting functions (affine 2x+i, "
         "mixed x-i / 3x, append-index on lists, append-index on interface values with the nil interface as empty list) the staged copy of /repo/internal/pipe is run on random arguments "
         "(|x| < 2^20, lists of length 0..2) from VERIF_SEED; a case is distinct by (arity, family, input) and "
         "non-trivial when the result separates at least two orders of application (always true for these families)")
@@ -79,7 +79,8 @@ def signature(c):
 
 
 def describe(c):
-    fam = {0: "f_i(x)=2x+i", 1: "f_i(x)= x-i (i odd) | 3x (i even)", 2: "f_i(l)=append(l,i)", 3: "f_i(x any)=append(list(x),i), nil interface = empty list; [-999] = panic"}[c["fam"]]
+    fam = {0: "f_i(x)=2x+i", 1: "f_i(x)= x-i (i odd) | 3x (i even)", 2: "f_i(l)=append(l,i)", 3: "f_i(x any)=append(list(x),i), nil interface = empty list; [-999] = panic",
+           4: "f_i(l)=append(l,i), and stage (N+1)/2 of the outermost call calls the pipeline itself on [100] and appends the length of the result"}[c["fam"]]
     return {"call": "Pipe%s(f_1..f_%d)(%s) with %s" % ("" if c["arity"] == 2 else c["arity"], c["arity"], c["input"], fam),
             "observed": c["observed"], "required": "f_N(...f_2(f_1(a)))"}
 
